@@ -309,6 +309,61 @@ def judge_footprint_scatter(n):
     return lambda ctx, inst, S: _gs_footprint(ctx, S, n, "scatter")
 
 
+def _scatter_paths(ctx, S, m, es, rule, n):
+    """scatter with conditional stores or stores at computed addresses (a contiguous fast path next to the
+    general one): decided on ROBDDs.  (i) every stored element lands, whenever its store executes, on the element
+    address of some active lane; (ii) for every active lane i and every input, some executed store puts exactly
+    v[i] at p[idx[i]]."""
+    import bdd
+    import ops
+    vt = ctx.vt
+    eb = vt.eb
+    chunks = []
+    for a in S.accesses:
+        if a.kind != "w" or a.base[0] == "alloca":
+            continue
+        if a.value is None or not a.size or a.size % es:
+            return UNDECIDED, "store of size %s at %s%+d" % (a.size, T.show(a.base, 3, ctx.names), a.off), rule, None
+        addr = T.add(a.base, T.const(64, a.off & ((1 << 64) - 1)))
+        for j_ in range(a.size // es):
+            chunks.append((a.cond, T.add(addr, T.const(64, j_ * es)), T.slice_(a.value, j_ * eb, eb)))
+    lane_addr = [T.add(ctx.args["p"], T.mul(ops.idx_lane(ctx, i), T.const(64, es))) for i in range(m)]
+
+    def ask(q, what):
+        try:
+            v, info = bdd.satisfy(q, ctx.argspecs, max_nodes=3000000)
+        except T.TooBig:
+            return UNDECIDED, "budget", None
+        if v == "UNSAT":
+            return None
+        if v == "SAT":
+            args = [info.get(k, 0) for k in range(len(ctx.argspecs))]
+            try:
+                if T.ev(q, {"args": args}) == 1:
+                    return REFUTED, what, {"args": {ctx.names[k]: hex(x) for k, x in enumerate(args) if k < len(ctx.names)}, "n": n}
+            except T.Uneval:
+                pass
+            return UNDECIDED, "BDD witness not confirmed by the evaluator", None
+        return UNDECIDED, "%s" % info, None
+    for cond, addr, val in chunks:
+        allowed = T.const(1, 0)
+        for la in lane_addr:
+            allowed = T.or_(allowed, T.icmp("eq", addr, la))
+        r = ask(T.and_(cond, T.not_(allowed)), "a store executes at %s, which is no active lane's element" % T.show(addr, 3, ctx.names))
+        if r is not None:
+            return r[0], r[1], rule, r[2]
+    for i, la in enumerate(lane_addr):
+        want = T.slice_(ctx.args["a"], i * eb, eb)
+        cov = T.const(1, 0)
+        for cond, addr, val in chunks:
+            cov = T.or_(cov, T.and_(cond, T.and_(T.icmp("eq", addr, la), T.icmp("eq", val, want))))
+        r = ask(T.not_(cov), "no executed store puts element %d of v at p[idx[%d]]" % (i, i))
+        if r is not None:
+            return r[0], r[1], rule, r[2]
+    return HOLDS, ("%d store element(s) on %d lane(s): each lands on an active lane's element whenever it executes, and every active "
+                   "lane receives its own element on every input (ROBDD implications)" % (len(chunks), m)), rule, None
+
+
 def judge_scatter_value(n):
     def j(ctx, inst, S):
         vt = ctx.vt
@@ -324,8 +379,8 @@ def judge_scatter_value(n):
             if a.kind != "w" or a.base[0] == "alloca":
                 continue
             k = (id(a.base), a.off)
-            if k not in lanes or a.size != es or a.value is None:
-                return UNDECIDED, "store at %s%+d size %s" % (T.show(a.base, 3, ctx.names), a.off, a.size), rule, None
+            if k not in lanes or a.size != es or a.value is None or not _true(a.cond):
+                return _scatter_paths(ctx, S, m, es, rule, n)
             lane = lanes[k]
             if lane >= m:
                 return REFUTED, "writes p[idx[%d]] although only %d lane(s) are active" % (lane, m), rule, {"n": n}
